@@ -256,7 +256,11 @@ func TestVerif_C20_Transport(t *testing.T) {
 		var planDesc []string
 		for act := 1; act <= 3; act++ {
 			if plan.ops[act] != c20tPass {
-				planDesc = append(planDesc, fmt.Sprintf("act%d:%s", act, c20tOpNames[plan.ops[act]]))
+				d := fmt.Sprintf("act%d:%s", act, c20tOpNames[plan.ops[act]])
+				if plan.ops[act] == c20tFlipMessage || plan.ops[act] == c20tFlipSignature {
+					d += fmt.Sprintf("@%d", plan.bit[act])
+				}
+				planDesc = append(planDesc, d)
 			}
 		}
 		if (out.outboundErr == nil) != initOK || (out.inboundErr == nil) != respOK {
@@ -275,6 +279,9 @@ func TestVerif_C20_Transport(t *testing.T) {
 		outcome := fmt.Sprintf("initiator:%v responder:%v", out.outboundErr == nil, out.inboundErr == nil)
 		labels := []string{"outcome:" + strings.ReplaceAll(outcome, " ", ","), fmt.Sprintf("protocols-equal:%v", pI == pR), fmt.Sprintf("acts-touched:%d", len(touched)), "first-reject:" + reason}
 		for _, d := range planDesc {
+			if i := strings.Index(d, "@"); i > 0 {
+				d = d[:i]
+			}
 			labels = append(labels, "op:"+d)
 		}
 		st.Case(len(touched) > 0 || pI != pR, fmt.Sprintf("pI=%q pR=%q plan=%v -> %s (%s)", pI, pR, planDesc, outcome, reason), labels...)
